@@ -187,7 +187,7 @@ def mk (D : DimOps V I) (H : ShapeH V I σ) (op : String) : Option Handler :=
         | some (s, p) => withOut (do let r ← ppOut D; let f ← pfeat; pure (r, f)) o fun ((_, pr), f) =>
             if !(H.spec s).valid then "skip shape-outside-domain"
             else if vNan D pr then "fail nan-projection"
-            else if f == Feat.unknown then "skip unknown-feature"
+            else if f == Feat.unknown then "fail feature-unknown"
             else if H.featOk s f (D.qv pr) (ftol D (D.qv p) (D.qv pr)) then "pass"
             else s!"fail feature-does-not-contain-projection{(H.spec s).cls (D.qv p)} {ffeat f}"
         | none => "skip bad-args" }
